@@ -42,6 +42,7 @@ type HarnessInfo struct {
 	POTimeout int
 	POLoop   int
 	ReplayInterp bool
+	NoBlock  bool
 }
 
 type Loaded struct {
@@ -209,6 +210,8 @@ func Load(groups []string) (*Loaded, error) {
 					h.Bounds = strings.TrimSpace(m[2])
 				case "po":
 					h.PO = true
+				case "noblock":
+					h.NoBlock = true
 				case "replay":
 					h.ReplayInterp = strings.TrimSpace(m[2]) == "interp"
 				case "poloop":
